@@ -452,6 +452,10 @@ fn persist_case(ctx: &mut Ctx, w: &mut World, big: bool) {
         if hyp_holds && w2 < prev {
             ctx.oracle_fail(&format!("C08:restart {} k={k}", c.ident), &format!("watermark after restart {w2} < watermark before {prev} (crash after {ops_done} file operations)"), &c.hist);
         }
+        // whatever the disk counts say: a complete persisted state on disk (current, else previous) is not lost
+        if w2 < loaded {
+            ctx.oracle_fail(&format!("C08:restart-persisted {} k={k}", c.ident), &format!("watermark after restart {w2} < watermark {loaded} of the newest complete state file on disk (crash after {ops_done} file operations: {})", res.split(" | ").next().unwrap_or("")), &c.hist);
+        }
         if w2 > prev { ctx.stat("restarts_that_advanced_from_disk_counts"); }
         { let p = prefix_from(0, &c.maxc, q); if w2 > p { ctx.oracle_fail(&format!("C08:sound {} k={k}", c.ident), &format!("restarted watermark {w2} exceeds the quorum-confirmed prefix {p}"), &c.hist); } }
         last = Some(m2);
